@@ -1,6 +1,7 @@
 #![no_main]
 use libfuzzer_sys::fuzz_target;
-fuzz_target!(|data: &[u8]| {
-    let _ = data;
-    c14fuzz::placeholder();
+
+fuzz_target!(init: { c14fuzz::init(); }, |data: &[u8]| {
+    let (findings, _stats) = c14fuzz::shared::fuzz_parse_texts(data);
+    c14fuzz::judge(findings);
 });
